@@ -1379,6 +1379,12 @@ def check_damage_case(ctx, stream: str, c: dict, path: Path) -> str:
 def damages(rng, raw: bytes, n: int):
     """[(label, damaged bytes)]: single-byte changes everywhere, truncations, extension-length changes."""
     out = []
+    # targeted: the two ends of the trailer, the byte before it, magic, version, entry count, first flags word
+    for p in rng.sample([len(raw) - 1, len(raw) - 20, len(raw) - 21, len(raw) - 2, 0, 3, 7, 11, 72, 73], 3):
+        if 0 <= p < len(raw):
+            b = bytearray(raw)
+            b[p] ^= 1 << rng.randrange(8)
+            out.append((f"flip@{p}", bytes(b)))
     for _ in range(n):
         k = rng.choice(["flip", "flip", "flip", "set", "trunc", "trunc-small", "drop-byte", "ins-byte"])
         b = bytearray(raw)
@@ -1415,7 +1421,7 @@ def _stream_index(ctx, git: Git):
     rng = ctx.rng
     n = ctx.budget(260)
     n_git = ctx.budget(70, mult=6)
-    n_dmg = 6
+    n_dmg = 4
     cases = []
     cdir = core.VERIF / "corpus" / PROP
     for f in sorted(cdir.glob("index-*.json")) if cdir.exists() else []:
